@@ -172,6 +172,15 @@ def run(ctx):
                 l = A.strip_casts(A.kids(x)[0])
                 if l.get("kind") == "MemberExpr" and l.get("referencedMemberDecl") in slot_sent and A.int_literal(A.kids(x)[1]) == -1:
                     reset.add(l.get("name"))
+        if q.endswith("clearSlot") and reset != allsent and queue_decided:
+            # a reset made in a helper: clearSlot as a whole is evaluated by R19.12 (positions and both controller bindings of the cleared slot)
+            ctx.note("R19.7: clearSlot does not assign %s itself; that a cleared slot is unbound and out of the queue is decided by the evaluation R19.12" % sorted(allsent - reset))
+            continue
+        if reset != allsent:
+            # the missing reset may be made by a helper of the unit that is handed the slot: not followed here
+            helpers7 = [A.callee_name(c_) for c_ in A.calls_in(u.body(fq)) if any(u.body(f_) is not None and f_.get("storageClass") == "static" for f_ in u.functions.get(A.callee_name(c_) or "", []))]
+            if helpers7:
+                raise AnalysisBroken("R19.7: %s leaves %s to be reset elsewhere; the helpers %s are not followed" % (q, sorted(allsent - reset), sorted(set(helpers7))))
         ctx.ob("R19.7", q, reset == allsent, site=A.where(fq), detail={"sentinel_fields": sorted(allsent), "reset_here": sorted(reset)},
                what="%s leaves %s untouched: a cleared slot keeps a stale binding" % (q, sorted(allsent - reset)))
 
